@@ -670,7 +670,15 @@ func runFuzz(r *rand.Rand, o *hout.Out) {
 		c.shadow = gen.PopulateMsg(r, all, opts, 0.4, true)
 		tmpls = append(tmpls, c)
 	}
+	pooled := map[*tcase]messages.Builder{} // one long-lived object per template: every input is also parsed into it
 	one := func(c *tcase, d []byte, kind string) {
+		if pooled[c] == nil {
+			pooled[c] = c.blank()
+		}
+		if r2 := safeUnmarshal(pooled[c], d, r.Intn(2) == 0); r2 == "panic" || r2 == "hang" {
+			o.Fail("C11", "decoder-"+r2+"-on-reused-object", fmt.Sprintf("template=%s (an object that earlier inputs were already parsed into) input=%q", c.name, d))
+			pooled[c] = c.blank()
+		}
 		m := c.blank()
 		blankDump := wire.Msg(m.Items())
 		strict := r.Intn(2) == 0
